@@ -380,6 +380,10 @@ func (fx *FnCtx) loadFacts(st *State, pc *Term, v Value) {
 		case "id", "ref":
 			fx.assume(Implies(pc, fx.tc.IdxLt(v.L[i], st.NAlloc)))
 		}
+		// ground instance of the type-range fact of the loaded leaf
+		for _, f := range fx.tc.leafFacts(l, v.L[i]) {
+			fx.assume(f)
+		}
 	}
 	for _, l := range v.L {
 		if l.hasBnd {
